@@ -93,9 +93,9 @@ class UDPListener:
                 return
             try:
                 request = json.loads(msg.decode('utf-8'))
-            except json.JSONDecodeError:
+            except ValueError:  # JSONDecodeError or UnicodeDecodeError
                 continue
-            if 'SECoP' not in request or request['SECoP'] != 'discover':
+            if not isinstance(request, dict) or request.get('SECoP') != 'discover':
                 continue
             self.log.debug('Answering UDP broadcast from: %s',
                            format_address(addr))
